@@ -26,6 +26,11 @@ type absDID struct {
 	Services    []string `json:"services"` // "type|endpoint" of the latest version, sorted
 	Deactivated bool     `json:"deactivated"`
 	Resolvable  bool     `json:"resolvable"`
+	// the same version as the relational read API shows it (DIDDocumentManager.Latest: rows of did_verification_method /
+	// did_service reached through the link tables) - "shows its previous version" means all of it
+	RelVersion  int      `json:"rel_version"`
+	RelVMs      int      `json:"rel_vms"`
+	RelServices []string `json:"rel_services"`
 }
 
 type absSubject struct {
@@ -52,7 +57,8 @@ func (a absState) key() string {
 		s := a.Subjects[n]
 		fmt.Fprintf(&sb, "%s{exists=%v listed=%d svc=%v err=%s", n, s.Exists, s.Listed, s.Svc, s.Err)
 		for _, d := range s.DIDs {
-			fmt.Fprintf(&sb, " %s:v%v vms=%d svc=%v deact=%v res=%v", d.Method, d.Versions, d.NumVMs, d.Services, d.Deactivated, d.Resolvable)
+			fmt.Fprintf(&sb, " %s:v%v vms=%d svc=%v deact=%v res=%v rel(v%d vms=%d svc=%v)", d.Method, d.Versions, d.NumVMs, d.Services, d.Deactivated, d.Resolvable,
+				d.RelVersion, d.RelVMs, d.RelServices)
 		}
 		sb.WriteString("} ")
 	}
